@@ -259,7 +259,9 @@ let no_judge _ _ = "ok"
 
 let register_all register =
   register "histC01" (s_hist Judge.judge_c01);
-  List.iter (fun n -> register ("hist" ^ n) (s_hist no_judge)) ["C02"; "C03"; "C04"; "C05"; "C06"; "C07"; "C08"; "C09"];
+  register "histC03" (s_hist Judge.judge_c03);
+  register "histC07" (s_hist Judge.judge_c07);
+  List.iter (fun n -> register ("hist" ^ n) (s_hist no_judge)) ["C02"; "C04"; "C05"; "C06"; "C08"; "C09"];
   register "phy" s_phy;
   register "phyenc" s_phyenc;
   register "maccmd" s_maccmd;
